@@ -102,6 +102,7 @@ pub fn is_limit_error(msg: &str) -> bool {
         || m.contains("too large")
         || m.contains("limit")
         || m.contains("too big")
+        || m.contains("max is")
         || m.contains("exhausted")
 }
 
@@ -109,7 +110,9 @@ pub fn is_limit_error(msg: &str) -> bool {
 /// documented limit stop quickly instead of burning the default 50k items per mask
 pub fn factory_tight(vocab: &Vocab) -> ParserFactory {
     let mut l = ParserLimits::default();
-    l.step_max_items = 6000;
-    l.max_items_in_row = 500;
+    if std::env::var("VERIF_DEFAULT_LIMITS").is_err() {
+        l.step_max_items = 6000;
+        l.max_items_in_row = 500;
+    }
     factory_ext(vocab, &[], InferenceCapabilities::default(), Some(l)).expect("factory")
 }
